@@ -231,7 +231,7 @@ theorem healLoop_fuel_mono (cfg : Cfg) : ∀ (fuel : Nat) (s : Schema) (h : Heap
       exact e
 
 /-- the working tree's variant (re-extracted on every run) is the deep-clone one: the theorem applies to it -/
-theorem current_clone_frames_source (hd : PyGql.Generated.HeapCfg.currentCfg.deepClone = true) :
-    CloneFramesClosedSource PyGql.Generated.HeapCfg.currentCfg := clone_frames_source _ hd
+theorem current_clone_frames_source :
+    CloneFramesClosedSource PyGql.Generated.HeapCfg.currentCfg := clone_frames_source _ cur_deepClone
 
 end PyGql.Props.C14
